@@ -195,37 +195,81 @@ pub mod sched {
     }
 
     /// Run `rounds` rounds on `lanes` lane threads (each lane runs whole rounds, one after the other),
-    /// merging every result into `agg`. Stops early at `deadline`. Returns (agg, rounds run, deadline hit).
-    pub fn run_lanes<R: Send, A: Send>(
+    /// merging every result into the aggregate. Stops early at `deadline`.
+    /// Returns (aggregate, rounds run, deadline hit, hung round).
+    /// Watchdog: a round that does not finish within `hang_limit` (orders of magnitude above a normal
+    /// round) means a call into the library never returned. The lanes are detached threads, so the
+    /// caller gets back what was observed so far plus the index of the stuck round and must report the
+    /// run as inconclusive (the stuck threads die with the process): a hang can never look like a pass.
+    pub fn run_lanes<R: Send + 'static, A: Send + Default + 'static>(
         lanes: usize,
         rounds: u64,
         deadline: Instant,
-        agg: A,
-        f: impl Fn(u64) -> R + Sync,
-        merge: impl Fn(&mut A, u64, R) + Sync,
-    ) -> (A, u64, bool) {
-        let next = AtomicU64::new(0);
-        let done = AtomicU64::new(0);
-        let hit = AtomicBool::new(false);
-        let agg = Mutex::new(agg);
-        std::thread::scope(|s| {
-            for _ in 0..lanes.max(1) {
-                s.spawn(|| loop {
-                    let i = next.fetch_add(1, SeqCst);
+        hang_limit: Duration,
+        f: impl Fn(u64) -> R + Send + Sync + 'static,
+        merge: impl Fn(&mut A, u64, R) + Send + Sync + 'static,
+    ) -> (A, u64, bool, Option<u64>) {
+        struct St<A> {
+            next: AtomicU64,
+            done: AtomicU64,
+            hit: AtomicBool,
+            live: AtomicU32,
+            // per lane: (ms since t0 at which the current round started) + 1, 0 = idle; and the round index
+            started: Vec<(AtomicU64, AtomicU64)>,
+            agg: Mutex<A>,
+        }
+        let lanes = lanes.max(1);
+        let t0 = Instant::now();
+        let st = Arc::new(St {
+            next: AtomicU64::new(0),
+            done: AtomicU64::new(0),
+            hit: AtomicBool::new(false),
+            live: AtomicU32::new(lanes as u32),
+            started: (0..lanes).map(|_| (AtomicU64::new(0), AtomicU64::new(0))).collect(),
+            agg: Mutex::new(A::default()),
+        });
+        let f = Arc::new(f);
+        let merge = Arc::new(merge);
+        for lane in 0..lanes {
+            let (st, f, merge) = (Arc::clone(&st), Arc::clone(&f), Arc::clone(&merge));
+            std::thread::spawn(move || {
+                loop {
+                    let i = st.next.fetch_add(1, SeqCst);
                     if i >= rounds {
                         break;
                     }
                     if Instant::now() >= deadline {
-                        hit.store(true, SeqCst);
+                        st.hit.store(true, SeqCst);
                         break;
                     }
+                    st.started[lane].1.store(i, SeqCst);
+                    st.started[lane].0.store(t0.elapsed().as_millis() as u64 + 1, SeqCst);
                     let r = f(i);
-                    merge(&mut agg.lock(), i, r);
-                    done.fetch_add(1, SeqCst);
-                });
+                    st.started[lane].0.store(0, SeqCst);
+                    merge(&mut st.agg.lock(), i, r);
+                    st.done.fetch_add(1, SeqCst);
+                }
+                st.live.fetch_sub(1, SeqCst);
+            });
+        }
+        let mut hung = None;
+        'wait: while st.live.load(SeqCst) > 0 {
+            if cfg!(miri) {
+                std::thread::yield_now();
+                continue;
             }
-        });
-        (agg.into_inner(), done.load(SeqCst), hit.load(SeqCst))
+            std::thread::sleep(Duration::from_millis(50));
+            let now = t0.elapsed().as_millis() as u64 + 1;
+            for (b, idx) in st.started.iter() {
+                let b = b.load(SeqCst);
+                if b != 0 && now.saturating_sub(b) > hang_limit.as_millis() as u64 {
+                    hung = Some(idx.load(SeqCst));
+                    break 'wait;
+                }
+            }
+        }
+        let agg = std::mem::take(&mut *st.agg.lock());
+        (agg, st.done.load(SeqCst), st.hit.load(SeqCst), hung)
     }
 }
 
@@ -468,6 +512,15 @@ fn observe(rd: &Round, h: &mut Held, write: bool, tidx: usize, out: &mut WorkerO
     }
 }
 
+/// TV_C35_SKIP_DATA_MUT=1 turns writes into reads. Only meant for the Miri stage: every call of
+/// PageRef::data_mut is reported by Miri as aliasing UB (cache.rs data_mut_unchecked), which stops the
+/// interpreter before it can look at anything else.
+fn skip_data_mut() -> bool {
+    use std::sync::OnceLock;
+    static S: OnceLock<bool> = OnceLock::new();
+    *S.get_or_init(|| std::env::var("TV_C35_SKIP_DATA_MUT").map(|v| v == "1").unwrap_or(false))
+}
+
 fn classify_err(msg: &str) -> &'static str {
     if msg.contains("injected init failure") {
         "goi_err_init_injected"
@@ -573,7 +626,7 @@ fn worker<'a>(rd: &Round<'a>, tidx: usize, seed: u64, barrier: &std::sync::Barri
             observe(rd, &mut held[i], false, tidx, &mut out, "read through held pin");
         } else if roll < 84 {
             let i = rng.below(held.len() as u64) as usize;
-            observe(rd, &mut held[i], true, tidx, &mut out, "write through held pin");
+            observe(rd, &mut held[i], !skip_data_mut(), tidx, &mut out, "write through held pin");
             if out.trace.len() < 40 {
                 let k = rd.keys[held[i].k].key;
                 out.trace.push(format!("write({},{})", k.file_id, k.page_no));
@@ -609,7 +662,9 @@ fn worker<'a>(rd: &Round<'a>, tidx: usize, seed: u64, barrier: &std::sync::Barri
     }
     while let Some(mut h) = held.pop() {
         observe(rd, &mut h, false, tidx, &mut out, "read before final unpin");
-        let _ = catch(move || drop(h));
+        if let Err(pn) = catch(move || drop(h)) {
+            out.viol("no_panic", format!("C35/no_panic/unpin_panicked@{}", panic_site(&pn)), json!({"panic": pn, "round": p.round}));
+        }
         out.bump("unpins");
     }
     out.points = sched::leave();
@@ -647,7 +702,7 @@ fn gen_params(seed: u64, round: u64, quick: bool) -> (Params, Rng) {
     let shards_used = if miri { rng.usize(1, 2) } else { *rng.pick(&[1usize, 2, 4, 4, 16, 64, 64]) };
     let nkeys = if miri { rng.usize(5, 10) } else { rng.usize(200, 400).max(shards_used * 3) };
     let hot = if miri { 3 } else { *rng.pick(&[2usize, 4, 8, 16, 64]) }.min(nkeys);
-    let ops = if miri { rng.usize(16, 30) } else if quick { rng.usize(60, 300) } else { rng.usize(100, 1000) };
+    let ops = if miri { rng.usize(12, 24) } else if quick { rng.usize(60, 300) } else { rng.usize(100, 1000) };
     let max_held = rng.usize(1, 4);
     let budget_mode = *rng.pick(&[0u8, 0, 0, 1, 1, 2, 2, 3]);
     // the budget can only bind before the shard capacities do if enough shards are in play
@@ -679,6 +734,17 @@ fn gen_params(seed: u64, round: u64, quick: bool) -> (Params, Rng) {
 }
 
 fn run_round(seed: u64, round: u64, quick: bool) -> RoundOut {
+    match catch(|| run_round_inner(seed, round, quick)) {
+        Ok(r) => r,
+        Err(pn) => {
+            let mut out = WorkerOut::default();
+            out.viol("no_panic", format!("C35/no_panic/round_panicked@{}", panic_site(&pn)), json!({"panic": pn, "round": round}));
+            RoundOut { fp: 0, events: 0, overlapped: false, c: out.c, viols: out.viols, sample: None, points: vec![], strat: "panicked".into() }
+        }
+    }
+}
+
+fn run_round_inner(seed: u64, round: u64, quick: bool) -> RoundOut {
     let (p, mut rng) = gen_params(seed, round, quick);
     let strat = format!("t{}c{}s{}b{}f{}e{}", p.threads, p.capacity, p.shards_used, p.budget_mode, (p.init_fail_permille > 0) as u8, (p.evict_all_permille > 0) as u8);
     let mut out = WorkerOut::default();
@@ -741,7 +807,15 @@ fn run_round(seed: u64, round: u64, quick: bool) -> RoundOut {
             .map(|t| {
                 let rd = &rd;
                 let barrier = &barrier;
-                s.spawn(move || worker(rd, t, seed, barrier))
+                s.spawn(move || match catch(|| worker(rd, t, seed, barrier)) {
+                    Ok(o) => o,
+                    Err(pn) => {
+                        let _ = sched::leave();
+                        let mut o = WorkerOut::default();
+                        o.viol("no_panic", format!("C35/no_panic/worker_thread_panicked@{}", panic_site(&pn)), json!({"panic": pn, "round": round}));
+                        o
+                    }
+                })
             })
             .collect();
         hs.into_iter()
@@ -784,6 +858,9 @@ fn run_round(seed: u64, round: u64, quick: bool) -> RoundOut {
                 let calls0 = keys[k].init_calls.load(SeqCst);
                 let mut h = Held { r, k, calls0 };
                 observe(&rd, &mut h, false, usize::MAX, &mut out, "final sweep of resident keys");
+                if let Err(pn) = catch(move || drop(h)) {
+                    out.viol("no_panic", format!("C35/no_panic/unpin_panicked@{}", panic_site(&pn)), json!({"panic": pn, "round": round}));
+                }
             }
             Ok(None) => {}
             Err(pn) => out.viol("no_panic", format!("C35/no_panic/get_panicked@{}", panic_site(&pn)), json!({"panic": pn, "round": round})),
@@ -854,6 +931,36 @@ fn run_round(seed: u64, round: u64, quick: bool) -> RoundOut {
     RoundOut { fp: sh.fp.load(SeqCst), events, overlapped, c: out.c, viols: out.viols, sample, points, strat }
 }
 
+/// Directed, single-threaded: a budgeted cache, one get_or_insert whose init closure fails, then clear().
+/// Returns the bytes still accounted to Pool::Cache (0 on a correct cache).
+fn directed_init_failure(out: &mut WorkerOut) {
+    let r = catch(|| {
+        let budget = Arc::new(MemoryBudget::with_limit(4 << 20));
+        let cache = PageCache::with_budget(64, Some(Arc::clone(&budget))).map_err(|e| e.to_string())?;
+        let before = budget.stats().cache_used;
+        let res = cache.get_or_insert(PageKey::new(1, 7), |_buf| eyre::bail!("injected init failure"));
+        let is_err = res.is_err();
+        drop(res);
+        let after_failed_insert = budget.stats().cache_used;
+        let len = cache.len();
+        cache.clear();
+        Ok::<_, String>((before, is_err, after_failed_insert, len, budget.stats().cache_used))
+    });
+    match r {
+        Ok(Ok((before, is_err, after_insert, len, after_clear))) => {
+            out.bump("directed_init_failure_cases");
+            if after_clear != 0 {
+                out.viol(
+                    "budget_zero_after_clear",
+                    "C35/budget_zero_after_clear/budget_of_page_not_released_when_init_fails".into(),
+                    json!({"steps": ["PageCache::with_budget(64, MemoryBudget::with_limit(4 MiB))", "get_or_insert(PageKey(1,7), |_| Err(..))", "clear()"], "cache_used_before": before, "get_or_insert_returned_err": is_err, "cache_used_after_failed_insert": after_insert, "entries_after_failed_insert": len, "cache_used_after_clear": after_clear}),
+                );
+            }
+        }
+        other => out.viol("no_panic", "C35/no_panic/directed_init_failure_case_failed".into(), json!({"result": format!("{:?}", other)})),
+    }
+}
+
 #[derive(Default)]
 struct Agg {
     c: BTreeMap<&'static str, u64>,
@@ -879,15 +986,15 @@ pub fn run(a: &Args) -> i32 {
     sched::install();
     let quick = ctx.quick();
     let cores = std::thread::available_parallelism().map(|n| n.get()).unwrap_or(4);
-    let (lanes, rounds, budget_s) = if miri { (1usize, 3u64, 3600u64) } else if quick { ((cores / 4).clamp(1, 4), 1600u64, 36u64) } else { ((cores / 3).clamp(1, 6), 60_000u64, 420u64) };
+    let (lanes, rounds, budget_s) = if miri { (1usize, 3u64, 3600u64) } else if quick { ((cores / 4).clamp(1, 4), 6000u64, 36u64) } else { ((cores / 3).clamp(1, 6), 400_000u64, 420u64) };
     let deadline = Instant::now() + Duration::from_secs(budget_s);
     let seed = a.seed;
-    let (agg, done, hit) = sched::run_lanes(
+    let (agg, done, hit, hung): (Agg, u64, bool, Option<u64>) = sched::run_lanes(
         lanes,
         rounds,
         deadline,
-        Agg::default(),
-        |i| run_round(seed, i, quick),
+        Duration::from_secs(90),
+        move |i| run_round(seed, i, quick),
         |g: &mut Agg, _i, r: RoundOut| {
             for (k, v) in r.c {
                 *g.c.entry(k).or_insert(0) += v;
@@ -914,6 +1021,22 @@ pub fn run(a: &Args) -> i32 {
         },
     );
     ctx.evals(done);
+    {
+        let mut d = WorkerOut::default();
+        directed_init_failure(&mut d);
+        ctx.eval();
+        for (k, v) in &d.c {
+            ctx.count(k, *v);
+        }
+        // reported first so that the minimal witness is the one kept for this signature
+        for v in &d.viols {
+            ctx.violation(v.assertion, &v.sig, v.detail.clone());
+        }
+    }
+    if let Some(r) = hung {
+        ctx.inconclusive(&format!("watchdog: round {} did not finish within 90 s (a call into PageCache never returned: deadlock or endless loop); verdict covers the {} rounds completed before", r, done));
+        ctx.extra.insert("hung_round".into(), json!({"round": r, "params": format!("{:?}", gen_params(seed, r, quick).0)}));
+    }
     for h in &agg.nontrivial {
         ctx.nontrivial(*h);
     }
@@ -937,6 +1060,9 @@ pub fn run(a: &Args) -> i32 {
     ctx.extra.insert("lanes".into(), json!(lanes));
     ctx.extra.insert("wall_budget_hit".into(), json!(hit));
     ctx.extra.insert("page_cache_used_by_database".into(), json!(false));
+    if skip_data_mut() {
+        ctx.extra.insert("writes_skipped_TV_C35_SKIP_DATA_MUT".into(), json!(true));
+    }
     ctx.assumptions.push("PageCache is not referenced by Database/any SQL path (only re-exported from storage/mod.rs and named in comments): the component is checked on its own API".into());
     ctx.assumptions.push("concurrent mutable access to one page is excluded by the harness (PageRef::data_mut documents that as the caller's duty); clear() is only called when no PageRef is alive (it removes pinned entries by design)".into());
     ctx.assumptions.push("the cache has no backing store here: after an eviction the key legitimately restarts from init; evictions are recognised by the generation number that every init call writes".into());
